@@ -486,3 +486,34 @@ _fuzz('C12', 0, 25000, harness='h_erode')
 _fuzz('C14', 0, 25000, harness='h_erode', kinds_t=RASTERS_FLOW if 'RASTERS_FLOW' in globals() else ['raster_rook', 'raster_queen', 'raster_bishop', 'raster_queen_nc'])
 _fuzz('C09', 1000, 12000, kinds_q=('raster_queen', 'trimesh'), harness='h_hist')
 _fuzz('C16', 0, 12000, harness='h_hist')
+
+
+# ------------------------------------------------------------------------------------------------ optimised build
+# The behavioural oracles also judge the code as users compile it (g++ -O2 -DNDEBUG, no sanitizer): assertions compiled out, other
+# inlining and floating-point scheduling. Thorough tier only; same generators, one process per grid configuration.
+def _release(pid, max_cases):
+    t0 = PLAN[pid]['thorough']
+
+    def thorough(seed):
+        base = t0(seed)
+        extra, seen = [], set()
+        for r in base:
+            if r['flavour'] != 'asan' or r['harness'] == 'h_conc' or r.get('wrapper'):
+                continue
+            key = (r['harness'], r['kind'])
+            if key in seen:
+                continue
+            seen.add(key)
+            r2 = dict(r)
+            r2['flavour'] = 'release'
+            r2['nshards'] = 1
+            r2['cases'] = min(r['cases'], max_cases)
+            extra.append(r2)
+        return base + extra
+    PLAN[pid]['thorough'] = thorough
+    PLAN[pid]['rule'] += ' The thorough tier repeats a slice of the generated cases on an optimised build (g++ -O2 -DNDEBUG, no sanitizer).'
+
+
+# (not for the enumerations of C07 / C17 / C20: their evidence counts every specification exactly once)
+for _p in ('C01', 'C02', 'C03', 'C04', 'C05', 'C06', 'C15', 'C19', 'C09', 'C16', 'C12', 'C13', 'C14', 'C18'):
+    _release(_p, 20000)
